@@ -261,6 +261,43 @@ func runC10(p *load.Program, r *oblig.Report) {
 		}
 	}
 	c10Alignment(p, r, r3, g)
+	c10ExceptionPreconditions(p, r)
+	// pooled codec objects: a double Put hands one object to two goroutines (shared with C16.R3)
+	c16ReleaseAs(p, r, "C10.R5 a pooled codec object has one owner at a time")
+}
+
+// c10ExceptionPreconditions checks the code facts the reviewed exceptions rely on.
+func c10ExceptionPreconditions(p *load.Program, r *oblig.Report) {
+	const rule = "C10.R4 preconditions of the reviewed exceptions"
+	// Reader.Close reads r.cancel outside the mutex: sound only because every write of Reader.cancel outside
+	// the constructor happens with the mutex held in a critical section that saw closed == false.
+	l := locksets(p)
+	n := 0
+	for _, fn := range p.ModuleFunctions() {
+		if strings.HasPrefix(fn.Name(), "NewReader") {
+			continue
+		}
+		an.EachInstr(fn, func(ins ssa.Instruction) {
+			st, ok := fieldStoreIs(ins, "Reader", "cancel")
+			if !ok {
+				return
+			}
+			n++
+			sawOpen := false
+			for _, c := range selConds(st) {
+				if clean(c) == "¬r.closed" {
+					sawOpen = true
+				}
+			}
+			held := l.Before[st].Holds("Reader.mutex", true)
+			// the test and the store are in one critical section: no unlock of the mutex between them is
+			// possible when the lock is held at both and the function does not unlock (checked by the lockset
+			// being held on entry: the callers lock)
+			r.Check(sawOpen && held, rule, "Reader.cancel is replaced only under Reader.mutex after closed was seen false ("+load.FuncName(fn)+")", p.Pos(st.Pos()),
+				"if r.closed { return } … r.cancel = cancel with Reader.mutex held", fmt.Sprintf("closedTestedFalse=%v mutexHeld=%v", sawOpen, held))
+		})
+	}
+	r.RequireCount(rule, n, 1)
 }
 
 // immutableUseOK: calling a method on / passing the address of an immutable field is fine when the
